@@ -154,10 +154,28 @@ impl OptChainVisitor<'_> {
                     if let Some(fist_arg) = self.assignments.first() {
                         self.assignment = Some(fist_arg.clone());
                         self.new_ident = Some(new_ident.clone());
+                        let mut new_callee = Expr::Ident(new_ident);
+                        let mut args = call_expr.args.clone();
+                        if callee.is_super_prop() {
+                            // super.b?.(arg1): b is found on the parent prototype and called on this
+                            //  (_1 = super.b, _1 == null ? undefined : _1.call(this, arg1))
+                            new_callee = Expr::Member(MemberExpr {
+                                span: DUMMY_SP,
+                                obj: Box::new(new_callee),
+                                prop: MemberProp::Ident(IdentName::new("call".into(), DUMMY_SP)),
+                            });
+                            args.insert(
+                                0,
+                                ExprOrSpread {
+                                    expr: Box::new(Expr::This(ThisExpr { span: DUMMY_SP })),
+                                    spread: None,
+                                },
+                            );
+                        }
                         let call_expr_new = CallExpr {
                             span: DUMMY_SP,
-                            callee: Callee::Expr(Box::new(Expr::Ident(new_ident))),
-                            args: call_expr.args.clone(),
+                            callee: Callee::Expr(Box::new(new_callee)),
+                            args,
                             ctxt: call_expr.ctxt,
                             type_args: call_expr.type_args.clone(),
                         };
